@@ -23,7 +23,7 @@ pub const NAMES_C15: &[&str] = &[
 
 pub const PATTERNS: &[&str] = &["a", "a|b", "x.y", "^a", "b$", "[ab]+", "(", "\\d+", "(?i)A", ".*", "a.*", "ab"];
 
-pub const STRINGS: &[&str] = &["", "a", "b", "ab", "xay", "A", "1", "aa", "ba"];
+pub const STRINGS: &[&str] = &["", "a", "b", "ab", "xay", "A", "1", "aa", "ba", "a b", " a", "a\tb"];
 
 pub fn scalar(rng: &mut Rng) -> Value {
     match rng.weighted(&[2, 2, 2, 8, 4, 8]) {
